@@ -792,7 +792,7 @@ func (lc *layerC) late(d time.Duration, sc cScenario, epoch int, w *world) {
 	if d > lc.worstLate {
 		lc.worstLate = d
 		lc.worstLateEx = map[string]any{"took": d.String(), "configs": sc.cfgs[0].Name + " / " + sc.cfgs[1].Name,
-			"scenario": sc.name, "epoch": epoch, "log_tail": w.tail(40)}
+			"scenario": sc.Name(), "epoch": epoch, "log_tail": w.tail(40)}
 	}
 }
 
@@ -807,11 +807,26 @@ func (lc *layerC) gap(ratio float64, ex map[string]any) {
 }
 
 type cScenario struct {
-	cfgs   [2]sessCfg
+	cfgs   *[2]sessCfg
 	epochs []linkMode
 	masks  [2]uint32
 	maskK  int
-	name   string
+}
+
+// Name is built on demand (hundreds of thousands of scenarios are enumerated).
+func (sc cScenario) Name() string {
+	if sc.maskK == 0 {
+		var names []string
+		for _, m := range sc.epochs {
+			names = append(names, m.String())
+		}
+		return "epochs[" + strings.Join(names, " ") + "]"
+	}
+	start := "cold"
+	if sc.epochs[0] == mAll {
+		start = "warm"
+	}
+	return fmt.Sprintf("mask[%s A>B drop=%0*b B>A drop=%0*b]", start, sc.maskK, sc.masks[0], sc.maskK, sc.masks[1])
 }
 
 const (
@@ -822,11 +837,11 @@ const (
 func (lc *layerC) run(sc cScenario) {
 	viol := func(key string, d map[string]any) {
 		d["configs"] = sc.cfgs[0].Name + " / " + sc.cfgs[1].Name
-		lc.col.add(key, sc.name, len(sc.epochs), d)
+		lc.col.add(key, sc.Name(), len(sc.epochs), d)
 	}
 	var harness string
 	p := bubble(lc.t, func() {
-		w := &world{start: time.Now(), cfg: sc.cfgs, mode: mNone, mask: sc.masks, maskK: sc.maskK}
+		w := &world{start: time.Now(), cfg: *sc.cfgs, mode: mNone, mask: sc.masks, maskK: sc.maskK}
 		var done [2]chan error
 		var ref [2]*Ref
 		var pre [2]*Ref // reference before the events of the latest instant (same-instant tolerance)
@@ -881,7 +896,7 @@ func (lc *layerC) run(sc cScenario) {
 							lc.cnt.add("info:deliver-all-epoch:tx-gap-longer-than-advertised-interval:"+lp.P.State.String()+"->"+e.P.State.String(), 1)
 							lc.gap(float64(gap)/float64(prom), map[string]any{"gap": gap.String(), "promised": prom.String(),
 								"previous_packet": fmt.Sprintf("%v %v tx=%dus", lp.T, lp.P.State, lp.P.DesiredTx),
-								"packet": fmt.Sprintf("%v %v", e.T, e.P.State), "session": sc.cfgs[x].Name, "scenario": sc.name})
+								"packet": fmt.Sprintf("%v %v", e.T, e.P.State), "session": sc.cfgs[x].Name, "scenario": sc.Name()})
 						}
 					}
 					ec := e
@@ -1025,7 +1040,7 @@ func (lc *layerC) run(sc cScenario) {
 		harness = fmt.Sprintf("panic: %v", p)
 	}
 	if harness != "" {
-		lc.r.HarnessError("two-session scenario %s: %s", sc.name, harness)
+		lc.r.HarnessError("two-session scenario %s: %s", sc.Name(), harness)
 	}
 }
 
@@ -1104,33 +1119,25 @@ func TestC16(t *testing.T) {
 	modes := []linkMode{mAll, mNone, mDropAB, mDropBA, mBurst1, mBurst2, mAdmin}
 	depth := mc.Pick(3, 5)
 	var scs []cScenario
-	for _, pr := range pairs {
+	for pi := range pairs {
+		pr := &pairs[pi]
 		n := 1
 		for i := 0; i < depth; i++ {
 			n *= len(modes)
 		}
 		for x := 0; x < n; x++ {
-			var eps []linkMode
-			var names []string
+			eps := make([]linkMode, 0, depth+1)
 			for i, y := 0, x; i < depth; i, y = i+1, y/len(modes) {
 				eps = append(eps, modes[y%len(modes)])
-				names = append(names, modes[y%len(modes)].String())
 			}
-			eps = append(eps, mAll)
-			names = append(names, "deliver-all")
-			scs = append(scs, cScenario{cfgs: pr, epochs: eps, name: "epochs[" + strings.Join(names, " ") + "]"})
+			scs = append(scs, cScenario{cfgs: pr, epochs: append(eps, mAll)})
 		}
 		k := mc.Pick(5, 8)
-		for _, warm := range []bool{false, true} {
+		cold, warm := []linkMode{mMask, mAll}, []linkMode{mAll, mMask, mAll}
+		for _, eps := range [][]linkMode{cold, warm} {
 			for ma := uint32(0); ma < 1<<uint(k); ma++ {
 				for mb := uint32(0); mb < 1<<uint(k); mb++ {
-					eps := []linkMode{mMask, mAll}
-					nm := fmt.Sprintf("mask[cold A>B drop=%0*b B>A drop=%0*b]", k, ma, k, mb)
-					if warm {
-						eps = []linkMode{mAll, mMask, mAll}
-						nm = fmt.Sprintf("mask[warm A>B drop=%0*b B>A drop=%0*b]", k, ma, k, mb)
-					}
-					scs = append(scs, cScenario{cfgs: pr, epochs: eps, masks: [2]uint32{ma, mb}, maskK: k, name: nm})
+					scs = append(scs, cScenario{cfgs: pr, epochs: eps, masks: [2]uint32{ma, mb}, maskK: k})
 				}
 			}
 		}
@@ -1142,7 +1149,7 @@ func TestC16(t *testing.T) {
 			return
 		}
 		lc.run(scs[i])
-		r.Case("c/"+scs[i].cfgs[0].Name+scs[i].cfgs[1].Name+scs[i].name, true)
+		r.Case("c/"+scs[i].cfgs[0].Name+scs[i].cfgs[1].Name+scs[i].Name(), true)
 		ranMu.Lock()
 		ran++
 		ranMu.Unlock()
